@@ -436,6 +436,10 @@ struct Exec {
                 case 10: return ncmpi_cancel(ncid, NC_REQ_ALL, nullptr, nullptr);
                 case 11: return ncmpi_sync(ncid);
                 case 16: return ncmpi_sync_numrecs(ncid);
+                case 20: { int d = -1, v1 = -1; int r1 = ncmpi_def_dim(ncid, (op.name + "_huge").c_str(), (MPI_Offset)1 << 30, &d); if (r1 != NC_NOERR) return r1;
+                           r1 = ncmpi_def_var(ncid, (op.name + "_a").c_str(), NC_DOUBLE, 1, &d, &v1); if (r1 != NC_NOERR) return r1;
+                           r1 = ncmpi_def_var(ncid, (op.name + "_b").c_str(), NC_DOUBLE, 1, &d, &v1); if (r1 != NC_NOERR) return r1;
+                           return ncmpi_enddef(ncid); }
                 case 14: { int r1 = ncmpi_buffer_attach(ncid, 64); if (r1 != NC_NOERR) return r1; return ncmpi_buffer_detach(ncid); }
                 default: return NC_NOERR;
                 }
